@@ -30,6 +30,9 @@ func (w *World) extraChecks(id string, opts *RunOpts) *Extra {
 		w.boundedC14(opts, ex)
 	}
 	w.callOrder(id, opts, ex)
+	if id == "C01" || id == "C06" || id == "C08" {
+		w.fmtSweep(id, opts, ex)
+	}
 	if id == "C16" {
 		w.flagTable(opts, ex)
 	}
